@@ -74,6 +74,22 @@ def match_types(writer_type, reader_type, named_schemas):
     return False
 
 
+def _reader_branches(w_schema, r_union, named_schemas):
+    """The branches of a reader union in the order they are tried: the first
+    branch that matches the writer schema without promotion wins, so the
+    branches of the writer's own type come before the others"""
+
+    def kind(schema, names):
+        if isinstance(schema, str) and schema in names:
+            schema = names[schema]
+        return extract_record_type(schema)
+
+    w_kind = kind(w_schema, named_schemas["writer"])
+    same = [s for s in r_union if kind(s, named_schemas["reader"]) == w_kind]
+    other = [s for s in r_union if kind(s, named_schemas["reader"]) != w_kind]
+    return same + other
+
+
 def match_schemas(w_schema, r_schema, named_schemas):
     error_msg = f"Schema mismatch: {w_schema} is not {r_schema}"
     if isinstance(w_schema, list):
@@ -83,7 +99,7 @@ def match_schemas(w_schema, r_schema, named_schemas):
     elif isinstance(r_schema, list):
         # If the reader is a union, ensure one of the new schemas is the same
         # as the writer
-        for schema in r_schema:
+        for schema in _reader_branches(w_schema, r_schema, named_schemas):
             if match_types(w_schema, schema, named_schemas):
                 return match_schemas(w_schema, schema, named_schemas)
         else:
@@ -429,7 +445,7 @@ def read_union(
             else:
                 raise SchemaResolutionError(msg)
         else:
-            for schema in reader_schema:
+            for schema in _reader_branches(idx_schema, reader_schema, named_schemas):
                 if match_types(idx_schema, schema, named_schemas):
                     idx_reader_schema = schema
                     result = read_data(
